@@ -164,7 +164,7 @@ def gen_tasks(tier, seed):
                 tasks.append({"kind": "reach", "name": name, "edges": es, "weights": [rng.choice((1, 2, 5)) for _ in es], "cyc": cyc, "hist": 2, "via": via, "sel": [rng.randrange(0, 12) for _ in range(5)]})
     # antichain (z3)
     for name, es in dags:
-        wfs = [None, {e: rng.choice((0, 1, 2, 5)) for e in es}, {e: 0 for e in es}, {e: rng.choice((1, 2 ** 31)) for e in es}]
+        wfs = [None, {}, {e: rng.choice((0, 1, 2, 5)) for e in es}, {e: 0 for e in es}, {e: rng.choice((1, 2 ** 31)) for e in es}]
         wfs += [{e: rng.choice((0, 1)) for e in es} for _ in range(4)] + [{e: rng.choice((0, 0, 1, 3)) for e in es} for _ in range(2)]
         if name in F.CURATED_DAGS and len(es) <= (6 if tier == "quick" else 8):
             wfs += [dict(zip(es, bits)) for bits in itertools.product((0, 1), repeat=len(es))]
